@@ -65,6 +65,7 @@ def c06(res):
     replay_step(res, "lanetail_q", kinds=K_REQ, modes="straddleall")
     replay_step(res, "lanews_q", kinds=K_REQ, modes="straddle8")
     replay_step(res, "lanelong_q", kinds=K_REQ, modes="base")
+    replay_step(res, "punct_q", kinds=K_REQ, modes="base")
     call_traces(res)
     for f in ("laneu4_q", "laneu3_q", "unispace"):
         replay_step(res, f, kinds=K_REQ, modes="base")
@@ -85,6 +86,7 @@ def c07(res):
     replay_step(res, "lanetail_q", kinds=K_RESP, modes="straddleall")
     replay_step(res, "lanews_q", kinds=K_RESP, modes="straddle8")
     replay_step(res, "lanelong_q", kinds=K_RESP, modes="base")
+    replay_step(res, "punct_q", kinds=K_RESP, modes="base")
     call_traces(res)
     for f in ("laneu4_q", "laneu3_q", "unispace"):
         replay_step(res, f, kinds=K_RESP, modes="base")
@@ -106,6 +108,8 @@ def c08(res):
     replay_step(res, "lanetail_q", kinds=HEADS, modes="straddleall")
     replay_step(res, "lanews_q", kinds=HEADS, modes="straddle8")
     replay_step(res, "lanelong_q", kinds=HEADS, modes="base")
+    replay_step(res, "punct_q", kinds=HEADS, modes="base")
+    replay_step(res, "trim_q", kinds=HEADS, modes="base")
     call_traces(res)
     for f in ("laneu4_q", "laneu3_q", "unispace"):
         replay_step(res, f, kinds=HEADS, modes="base")
@@ -125,6 +129,7 @@ def c09(res):
     feed_traces(res, fam(t, 250000, 3000000), kinds="3")
     if t == "thorough":
         mc_head(res, "language-chunk-all-bytes", invs=["InvLanguage", "InvFraming"], kinds='{"chunk"}', family="BYTE", follow="{10, 13, 32, 58, 97}", timeout=3000)
+    replay_step(res, "punct_q", kinds=K_CHUNK, modes="base")
     call_traces(res)
     variant_sweep(res, ["digits", "chunk_q"], kinds=K_CHUNK)
 
@@ -135,6 +140,7 @@ def c10(res):
     for f in fam(t, ["byte_q", "ext_q", "lines_q", "methods", "versions", "prefaces", "walk_q", "deep_q", "dict_q"], ["byte_t", "ext_t", "lines_t", "hdrext_t", "methods", "versions", "prefaces", "walk_t", "deep_t", "dict_q"]):
         replay_step(res, f, kinds=HEADS, modes="base")
     feed_traces(res, fam(t, 250000, 3000000), kinds="0,1,2")
+    replay_step(res, "punct_q", kinds=HEADS, modes="base")
     call_traces(res)
     replay_step(res, "unispace", kinds=HEADS, modes="base")
     variant_sweep(res, ["byte_q"], kinds=HEADS)
@@ -148,6 +154,8 @@ def c11(res):
         replay_step(res, f, modes="completion")
     feed_traces(res, fam(t, 250000, 3000000), kinds="0,1,2,3")
     replay_step(res, "unispace", modes="completion")
+    replay_step(res, "punct_q", modes="completion")
+    call_traces(res)
     variant_sweep(res, ["byte_q"], modes="completion")
 
 
@@ -163,6 +171,7 @@ def c02(res):
     replay_step(res, "lanews_q", modes="straddle8")
     for f in ("lane8_q", "laneu4_q", "methods", "reasons"):
         replay_step(res, f, modes="giant")
+    replay_step(res, "punct_q", modes="extend")
     replay_step(res, "unispace", modes="extend")
 
 
@@ -175,6 +184,7 @@ def c03(res):
     replay_step(res, "lanetail_q", modes="straddleall")
     replay_step(res, "lanews_q", modes="straddle8")
     variant_sweep(res, ["lines_q", "dict_q"])
+    replay_step(res, "punct_q", modes="base")
     call_traces(res)
 
 
@@ -207,6 +217,8 @@ def c05(res):
         replay_step(res, f, kinds=HEADS, modes="base")
     for b in (None, 2, 3):
         replay_step(res, "lane_q", kinds=HEADS, modes="giant", backend=b)
+    replay_step(res, "punct_q", kinds=HEADS, modes="base")
+    replay_step(res, "trim_q", kinds=HEADS, modes="base")
     variant_sweep(res, ["lane_q"], kinds=HEADS)
 
 
@@ -223,6 +235,8 @@ def c14(res):
     replay_step(res, "lanews_q", kinds="0,1", modes="straddle8")
     replay_step(res, "unispace", kinds="0,1", modes="base")
     variant_sweep(res, ["lines_q"], kinds="0,1")
+    replay_step(res, "punct_q", kinds="0,1", modes="base")
+    replay_step(res, "trim_q", kinds="0,1", modes="base")
     call_traces(res)
     config_traces(res, fam(t, 4000, 60000))
 
@@ -241,6 +255,7 @@ def c15(res):
     for f in fam(t, ["ext_q", "lines_q", "methods", "versions", "prefaces", "code_q", "reasons", "dict_q"], ["byte_q", "ext_t", "lines_t", "methods", "versions", "prefaces", "code_q", "reasons", "dict_q"]):
         replay_step(res, f, kinds="0,1", modes="cfgs")
     replay_step(res, "unispace", kinds="0,1", modes="cfgsdone")
+    call_traces(res)
     config_traces(res, fam(t, 4000, 60000))
 
 
@@ -250,6 +265,7 @@ def c16(res):
     multi(res, ["EntryKindsAgree"], fam(t, "4", "6"), kinds=("req",))
     for f in fam(t, ["byte_q", "ext_q", "lines_q", "methods", "versions", "prefaces", "dict_q"], ["byte_t", "ext_t", "lines_t", "lane_t", "methods", "versions", "prefaces", "dict_q"]):
         replay_step(res, f, kinds=HEADS, modes="entries,embed")
+    replay_step(res, "punct_q", kinds=HEADS, modes="entries")
     call_traces(res)
 
 
@@ -371,6 +387,7 @@ def c01(res):
         replay_step(res, f, modes="places")
     memcheck_step(res, fam(t, ["lanetail_q"], ["lanetail_q", "lane_q", "lane8_q"]))
     variant_sweep(res, ["lane_q"], modes="places")
+    replay_step(res, "punct_q", modes="places,entries")
     call_traces(res)
 
 
@@ -742,7 +759,7 @@ def scan_traces(res, thorough=False, variant=None, label="scan", neon=False):
         return
     info = json.loads(r.stdout.strip().splitlines()[-1])
     files = [out + ".%d" % i for i in range(NCPU)]
-    results = validate_traces(res, label, "TraceScan", TRACE_CFG, files, timeout=3000)
+    results = validate_traces(res, label, "TraceScan", TRACE_CFG, files, timeout=3000, split=20000)
     res.traces += info["events"]
     res.evaluations += info["calls"]
     res.nontrivial += info["events"]
@@ -849,6 +866,8 @@ def c18(res):
                 "SPECIFICATION Spec\nCONSTANTS\n  Depth = %s\n  PoolKind = \"%s\"\nINVARIANT HistoryIndependent ExposedLaw\nCHECK_DEADLOCK FALSE\n" % (fam(t, "3", "4"), k),
                 workers=8)
     mc_head(res, "complete-determined", invs=["InvCompleteDetermined"], kinds='{"req", "resp"}', L="1", caps="{0, 1, 2, 100000}")
+    for f in ("methods", "versions", "reasons", "ext_q", "dict_q"):
+        replay_step(res, f, kinds="0,1", modes="entries")
     session_traces(res, fam(t, 12000, 300000))
 
 
@@ -964,6 +983,8 @@ CALL_PARTS = {
     "C08": ('{"st", "headers", "twin"}', "{0, 1, 2}"),
     "C09": ('{"st", "n", "digits"}', "{3}"),
     "C10": ('{"err"}', "{0, 1, 2}"),
+    "C11": ('{"st"}', "{0, 1, 2, 3}"),
+    "C15": ('{"st", "n", "count"}', "{0, 1}"),
     "C14": ('{"st", "headers"}', "{0, 1}"),
     "C16": ('{"entries", "st", "count"}', "{0, 1, 2}"),
     "C17": ('{"st", "count", "err", "slots"}', "{0, 1, 2}"),
